@@ -106,6 +106,12 @@ def preOf : Sexp → Option Pre
   | .list [.atom "whole", e] => do pure (.whole (← expr e))
   | _ => none
 
+/-- `in_axes` entries: `F` = None, `T` = 0, a number = that axis. -/
+def ax? : Sexp → Option Ax
+  | .atom "F" => some none
+  | .atom "T" => some (some 0)
+  | s => do pure (some (← s.nat?))
+
 def strs : Sexp → Option (List String)
   | .list xs => xs.mapM fun | .atom s => some s | _ => none
   | _ => none
@@ -114,7 +120,7 @@ mutual
 partial def prog : Sexp → Option Prog
   | .list [.atom "dist", d] => d.nat?.map Prog.dist
   | .list [.atom "static", b] => do pure (.static (← body b))
-  | .list [.atom "vmap", p, .list axes] => do pure (.vmap (← prog p) (← axes.mapM Sexp.bool?))
+  | .list [.atom "vmap", p, .list axes] => do pure (.vmap (← prog p) (← axes.mapM ax?))
   | .list [.atom "scan", p, .atom "none"] => do pure (.scan (← prog p) none)
   | .list [.atom "scan", p, n] => do pure (.scan (← prog p) (some (← n.nat?)))
   | .list (.atom "switch" :: ps) => do pure (.switch (← ps.mapM prog))
